@@ -387,14 +387,6 @@ func c12ErrClass(err error) string {
 	return "other"
 }
 
-func coqStrs(xs []string) string {
-	ys := make([]string, len(xs))
-	for i, x := range xs {
-		ys[i] = coqRunes(x)
-	}
-	return coqList(ys)
-}
-
 func c12QueryCoq(q *query.Query) string {
 	st := make([]string, len(q.Status))
 	for i, s := range q.Status {
